@@ -1,5 +1,5 @@
 """C20 — double-word-CAS structures (LIFO, dist FIFO, flushable stack, multi-signal) are ABA-safe (structural part)."""
-from core import strip, strip_parens, is_field, order_ge, key_str, key_mentions
+from core import is_atomic_load, atomic_load_order, strip, strip_parens, is_field, order_ge, key_str, key_mentions
 from facts import AnalysisBroken
 from rules import (check_init, through_local, nodeset, callpred, atom_from, reach, ev, Unevaluable, is_compiler_fence, ret_const)
 from symword import Machine
@@ -149,9 +149,9 @@ def check_sites(ctx, P):
             if fn.dominated_by(pn, nodeset(cl)) is not None:
                 bad = bad or "the pointer is loaded before the counter"
         for cn in cl:
-            atomic_ok = cn.k == "AtomicExpr" and order_ge(cn.order or "relaxed", "acquire")
+            atomic_ok = is_atomic_load(cn) and order_ge(atomic_load_order(cn), "acquire")
             for pn in pl:
-                p_ok = pn.k == "AtomicExpr" and order_ge(pn.order or "relaxed", "acquire")
+                p_ok = is_atomic_load(pn) and order_ge(atomic_load_order(pn), "acquire")
                 if not (atomic_ok or p_ok):
                     if fn.find_path(cn, lambda n: n is pn, barrier=cf) is not None:
                         bad = bad or "nothing keeps the compiler from re-ordering the counter and pointer loads"
@@ -245,7 +245,7 @@ def check_lifo_dist(ctx, P):
                 if rc is None and f.guarded(r, isc) is not None:
                     bad = bad or "a node is returned without having won the CAS2"
             for l in f.loads_of("mpsc_fifo_node", "next") + f.loads_of("mpsc_fifo_node", "data"):
-                if f.find_path(c[0], lambda n: n is l.node, barrier=lambda n: n.k == "AtomicExpr") is not None and f.find_path("entry", lambda n: n is l.node, barrier=lambda n: n is c[0]) is None:
+                if f.find_path(c[0], lambda n: n is l.node, barrier=lambda n: n.k == "AtomicExpr" or is_atomic_load(n)) is not None and f.find_path("entry", lambda n: n is l.node, barrier=lambda n: n is c[0]) is None:
                     bad = bad or "`%s` is read only after the CAS2" % l.node.text
         o.check(bad is None, "read before, return behind CAS2", bad, site=f.loc, construct="pop claim " + name)
     f = P.fn("dist_fifo_push")
